@@ -22,14 +22,14 @@ Definition own_links (c : cell) : list id :=
 Lemma own_links_links c y : In y (own_links c) -> In y (links c).
 Proof.
   destruct c; intros H; try (simpl in H; contradiction).
-  - exact H.
+  - unfold links. unfold own_links in H. rewrite !app_assoc. apply in_or_app. left. rewrite <- !app_assoc. exact H.
   - simpl in H. destruct H as [<-|[<-|[]]]; [apply lk_n_mp|apply lk_n_meta].
   - simpl in H. destruct H as [<-|[<-|[<-|[]]]]; [apply lk_g_opset|apply lk_g_mp|apply lk_g_meta].
   - unfold links. right. apply in_or_app. right. exact H.
 Qed.
 
 Definition shared_attr (a : attr) : Prop :=
-  match a_val a with AVal _ _ | ARef _ _ => True | _ => False end.
+  match a_val a with AVal _ _ | ARef _ _ | ATensor _ => True | _ => False end.
 
 (* dictionaries of the initial heap are dictionaries: unique keys, and the keys under which attributes and
    initializers are filed are their names (needed only for the faithfulness statements) *)
@@ -69,7 +69,9 @@ Section Good.
     y < n0 /\
     ((exists a, cells h0 y = Some (CAttr a) /\ shared_attr a) \/
      (deep = false /\ exists m md k, cells h0 m = Some (CMeta md) /\ In (k, MObj y) (m_data md)) \/
-     In y (passed st) \/ In y (kept st)).
+     In y (passed st) \/ In y (kept st) \/
+     (* the tensor object of a value's const_value: shared by design *)
+     (exists o v0, cells h0 o = Some (CValue v0) /\ v_const v0 = Some y)).
 
   Definition FR (st : cst) (x : id) : Prop := n0 <= x /\ x < next (hp st).
 
@@ -109,7 +111,7 @@ Section Good.
   Lemma allowed_le st st' y : le st st' -> allowed st y -> allowed st' y.
   Proof.
     intros (_ & _ & Hp & Hk) [Hy H]. split; [exact Hy|].
-    destruct H as [H|[H|[H|H]]]; auto.
+    destruct H as [H|[H|[H|[H|H]]]]; auto 6.
   Qed.
 
   (* agreement below next + closedness: canonical forms of existing cells are stable *)
@@ -278,7 +280,7 @@ Section Good.
     - exact (g_vmap _ G).
     - exact (g_own _ G).
     - intros x c' Hx Hc y Hy. destruct (g_links _ G x c' Hx Hc y Hy) as [K|K]; [left; exact K|right].
-      destruct K as [K1 K2]. split; [exact K1|]. simpl. destruct K2 as [K2|[K2|[K2|K2]]]; auto.
+      destruct K as [K1 K2]. split; [exact K1|]. simpl. destruct K2 as [K2|[K2|[K2|[K2|K2]]]]; auto 6.
     - exact Ha.
     - exact Hkp.
   Qed.
